@@ -95,7 +95,7 @@ for _t in ('income', 'investment', 'transfer'):
                  'non' + _t, _t + '_tax',
                  # letters that only a Unicode case FOLD (not lower-casing) maps onto the word: long s, the st ligature, sharp s
                  _t.replace('s', '\u017f'), _t.upper().replace('ST', '\ufb06'), _t.replace('s', '\u00df'), _t.replace('i', '\u0130').upper(),
-                 _t.upper().replace('K', '\u212a'),
+                 _t.upper().replace('K', '\u212a'), _t.replace('i', '\u0130', 1), _t.upper().replace('I', '\u0130', 1), _t.upper(),
                  # one tag whose text contains a comma (a tag list joined by commas must not be mistaken for it, and vice versa)
                  'bonus,' + _t, _t + ',bonus', _t + ',', ',' + _t,
                  # characters that only ONE of Python's str.strip() and JavaScript's trim() regards as white space (BOM; NEL, FS-US), and ones both / neither do
@@ -218,6 +218,18 @@ def judge_pairs(rec, pairs, flows, py_pairs=None, label='', py_excluded=None, wh
         if p.returncode != 0:
             raise core.Inconclusive('node failed on the extracted block: ' + p.stderr.strip()[-300:])
         out = json.loads(p.stdout)
+        # the report is opened on machines of every language: the same pairs evaluated by a JavaScript engine whose locale is Turkish / Lithuanian (the two
+        # whose lower-casing differs from the locale-independent one) give the same answers
+        for loc in ('tr_TR.UTF-8', 'lt_LT.UTF-8'):
+            p2 = subprocess.run([node, os.path.join(tmp, 'driver.js'), os.path.join(tmp, 'block.js'), os.path.join(tmp, 'in.json')] + (['whole'] if whole else []),
+                                capture_output=True, text=True, timeout=600, env=dict(os.environ, LC_ALL=loc, LANG=loc, LANGUAGE=loc.split('.')[0]))
+            rec.count('pair_sets_evaluated_under_another_reader_locale')
+            if p2.returncode == 0:
+                out2 = json.loads(p2.stdout)
+                bad = [(pr, a_, b_) for pr, a_, b_ in zip(pairs, out['pairs'], out2['pairs']) if a_ != b_]
+                if bad:
+                    rec.violation('classification-depends-on-the-readers-locale', f'JavaScript locale {loc}: amount={bad[0][0][0]!r} tags={bad[0][0][1]!r}: {bad[0][2]} there, '
+                                  f'{bad[0][1]} under the default locale ({len(bad)} pairs differ)', {'kind': 'pair', 'a': bad[0][0][0], 't': bad[0][0][1], 'before': [], 'whole': whole})
     finally:
         shutil.rmtree(tmp, ignore_errors=True)
     for idx, ((a, tl), js) in enumerate(zip(pairs, out['pairs'])):
@@ -312,6 +324,10 @@ def report_level(rec, rnd, n):
                             'raw_description': nm.upper(), 'source': 'Amex', 'location': None}
                 txns = [_t('Grocer', 120.0, [], 1), _t('Grocer', 80.0, [], 2), _t('Card Payment', -500.0, ['transfer'], 2), _t('Broker', -50.0, ['investment'], 3)] if k == 1 else \
                        [_t('Employer', -1450.0, ['income'], 1), _t('Rent', 1000.0, [], 1), _t('Grocer', 450.0, [], 2), _t('To Savings', 300.0, ['transfer'], 2), _t('From Savings', -300.0, ['transfer'], 3)]
+                if k == 2:
+                    # a payment whose OWN tag list is empty while the rule information attached to it lists a special tag: the transaction's tags are what counts, on both sides
+                    txns.append(dict(_t('Side Gig', -900.0, [], 3), match_info={'pattern': 'contains("GIG")', 'source': 'user', 'tags': ['income'], 'tag_sources': {}}))
+                    txns.append(dict(_t('Broker Two', 250.0, [], 3), match_info={'pattern': 'contains("BROKER")', 'source': 'user', 'tags': ['investment'], 'tag_sources': {}}))
                 rec.count('reports_with_a_total_that_is_exactly_zero')
             if rnd.random() < .3:
                 # a category whose merchants cancel exactly (a flight and the insurance pay-out for it): its transactions are classified one by one all the same
